@@ -40,7 +40,10 @@ def gen_case(rng, idx):
             return ("backward", {"tensors": outs, "inputs": ins, "k": rng.choice([None, 1, 2]), "retain": True,
                                  "agg": ajcheck.rand_agg(rng, m, 0.8)})
     else:
-        prog, feats, losses, tasks, shared = ajlib.gen_mtl(rng)
+        # every second mtl case has a head with two same-shape parameters entering additively (autograd
+        # hands ONE gradient object to both), their .grad absent before the first call
+        aliasing = idx % 4 == 1
+        prog, feats, losses, tasks, shared = ajlib.gen_mtl(rng, alias=True if aliasing else None)
         leaves = [t for t in range(prog.n()) if prog.is_leaf[t] and prog.req[t]]
         t = len(losses)
 
@@ -64,6 +67,9 @@ def gen_case(rng, idx):
     if rng.random() < 0.25:               # n identical calls
         hist = [first] * rng.randint(2, 4)
     old = ajcheck.rand_old(rng, prog, leaves, 0.4)
+    if idx % 4 == 1:
+        own = {q for ps in tasks for q in ps}
+        old = {k: v for k, v in old.items() if int(k) not in own}
     # some pre-existing .grad fields are views of one shared flat buffer
     shared_buf = [int(t) for t in old if rng.random() < 0.5]
     shared_buf = shared_buf if len(shared_buf) >= 2 else []
